@@ -185,7 +185,7 @@ def step_state(l3, machine, sidx, sym_is_end, alloc, stats, want=('c06', 'c03', 
     d['cov']['c_paths'] += len(ex.paths); d['cov']['abs_paths'] += len(apaths)
     d['cov']['mem_obligations'] += ex.n_obl; d['cov']['mem_obligations_solver'] += ex.n_obl_solver
     symname = 'end' if sym_is_end else 'byte'
-    key = f'{sidx}/{symname}/{_amask(alloc)}'
+    key = f"{getattr(l3, 'label', '?')}@{sidx}/{symname}/{_amask(alloc)}"
 
     def witness(model):
         w = {'pre': model_pre(l3, model, data, sidx, alloc), 'sym': symname}
@@ -195,8 +195,7 @@ def step_state(l3, machine, sidx, sym_is_end, alloc, stats, want=('c06', 'c03', 
 
     def getmodel(conds):
         solver.push(); solver.add(*inv, *conds)
-        t = time.time(); r = solver.check(); d['queries'] += 1; d['solver_time'] += time.time() - t
-        mdl = solver.model() if r == z3.sat else None
+        t = time.time(); r, mdl = symx.robust_check(solver); d['queries'] += 1; d['solver_time'] += time.time() - t
         solver.pop()
         return r, mdl
 
@@ -289,8 +288,7 @@ def step_state(l3, machine, sidx, sym_is_end, alloc, stats, want=('c06', 'c03', 
                 d['obligations'] += 1
                 solver.push()
                 solver.add(cpc[id(p)], z3.Not(goal))
-                t = time.time(); r = solver.check(); d['queries'] += 1; d['solver_time'] += time.time() - t
-                mdl = solver.model() if r == z3.sat else None
+                t = time.time(); r, mdl = symx.robust_check(solver); d['queries'] += 1; d['solver_time'] += time.time() - t
                 solver.pop()
                 if r == z3.unsat:
                     d['discharged'] += 1
